@@ -172,6 +172,8 @@ def pc_serialization(case, lo):
     for tag in ("c", "u"):
         if lib_s(lo, "deser_check." + tag) not in (None, "accept"):
             fails.append("%s: verification with deserialized key, commitments and proof (%s) -> %s" % (sch, tag, lib_s(lo, "deser_check." + tag)))
+        if lib_s(lo, "deser_batch_check." + tag) not in (None, "accept"):
+            fails.append("%s: batch verification with a deserialized verifier key (%s) -> %s" % (sch, tag, lib_s(lo, "deser_batch_check." + tag)))
         if lib_s(lo, "deser_check_bad." + tag) == "accept":
             fails.append("%s: verification with deserialized inputs accepts a false value" % sch)
     return fails
